@@ -188,14 +188,17 @@ CStep(sc, c) ==
                 ELSE LET last == InputStreams(c.sp.req.role)[Len(InputStreams(c.sp.req.role))]
                      IN CallPI([c EXCEPT !.sp = SP_SetStream(c.sp, last).st], -1, "H")
            [] op.op = "write" ->
-                \* StreamWriter::poll_write: nothing for an empty buffer, else one record of min(n, 65535) bytes
+                \* write_all over StreamWriter::poll_write: nothing for an empty buffer, else records of at most 65535 bytes
                 IF op.a = 0 THEN [Log(c, [op |-> "write", ok |-> TRUE, n |-> 0, got |-> <<>>, err |-> "", wr |-> c.wr]) EXCEPT !.hp = c.hp + 1]
                 ELSE LET n == Min2(op.a, 65535) IN
-                     [StartWrite(c, << IRec(op.s, n, c.sp.req.id) >>, "HW_write") EXCEPT !.hw = [s |-> op.s, n |-> n]]
+                     [StartWrite(c, << IRec(op.s, n, c.sp.req.id) >>, "HW_write") EXCEPT !.hw = [s |-> op.s, n |-> op.a - n]]
            [] op.op = "flush" -> [Log(c, [op |-> "flush", ok |-> TRUE, n |-> 0, got |-> <<>>, err |-> "", wr |-> c.wr]) EXCEPT !.hp = c.hp + 1]
            [] op.op = "ret" -> HandlerReturns(sc, c, op.st))
     [] c.pc = "HW_done" ->
-         [Log(c, [op |-> "write", ok |-> TRUE, n |-> c.hw.n, got |-> <<>>, err |-> "", wr |-> c.wr]) EXCEPT !.pc = "H_op", !.hp = c.hp + 1]
+         \* hw.n = bytes of the write_all buffer still to be sent as further records
+         IF c.hw.n > 0
+         THEN LET n == Min2(c.hw.n, 65535) IN [StartWrite(c, << IRec(c.hw.s, n, c.sp.req.id) >>, "HW_write") EXCEPT !.hw = [s |-> c.hw.s, n |-> c.hw.n - n]]
+         ELSE [Log(c, [op |-> "write", ok |-> TRUE, n |-> CurOp(sc, c).a, got |-> <<>>, err |-> "", wr |-> c.wr]) EXCEPT !.pc = "H_op", !.hp = c.hp + 1]
     \* ---- poll_input
     [] c.pc = "PI_top" ->
          LET d == c.pi.dest  plen == ParsedLen(c.sp) IN
